@@ -352,7 +352,10 @@ impl StreamsState {
             self.data_recvd = self
                 .data_recvd
                 .saturating_add(u64::from(final_offset) - end);
-            self.add_read_credits(u64::from(final_offset) - bytes_read)
+            // Credit for everything a stopped stream received was already issued, when it was
+            // stopped and as further data arrived
+            let credited = if stopped { end } else { bytes_read };
+            self.add_read_credits(u64::from(final_offset) - credited)
         } else {
             ShouldTransmit(false)
         })
